@@ -99,6 +99,13 @@ def run(pid, tier):
     ctx.ev.add_tlc("MC_FixSched_neg (a same-level edge: TLC must find the non-converging schedule)", rn)
     if rn.ok or rn.violated != "Converged":
         raise Machinery("FixSched negative configuration did not produce the expected counterexample (vacuous model?)")
+    if tier == "thorough":
+        # beyond TLC's bound: six rules, EVERY assignment of levels 0..5, every upward Dirties relation (inductive invariant, Apalache)
+        from .. import apalache
+        a = apalache.inductive("FixSched_apa", ["FixSched"], init="AInit", extra=("--cinit=ConstInit", "--next=ANext"), timeout=900)
+        ctx.ev.parts["apalache_FixSched_inductive_invariant"] = a
+        if a["result"] == "violated":
+            raise Machinery("FixSched_apa: IndInv is not inductive: %s" % a)
     fixers = default_fixers()
     if len(fixers) < 15:
         raise Machinery("could not read the fix-capable default rules from `plugins list`: %s" % fixers)
